@@ -109,6 +109,29 @@ Definition recs_bounded (n : Z) (a : aspec) : Prop :=
 Definition one_schema (g : list doc) : Prop := forall x y, In x g -> In y g -> schema_sig x = schema_sig y.
 Definition recs_unmixed (a : aspec) : Prop := Forall (fun r => one_schema (gr_samples r)) (a_recs a).
 
+(* the log changed according to event e with payload p *)
+Definition log_ev (w w' : writer) (p : outp) (e : wev) : Prop :=
+  match e with
+  | WNone => w_log w' = w_log w
+  | WDone => w_log w' = w_log w ++ [WFull p]
+  | WShort n => w_log w' = w_log w ++ [WPart n p]
+  end.
+
+(* the next write will be acknowledged *)
+Definition next_write_ok (w : writer) : Prop := match w_faults w with [] | FNone :: _ => True | _ => False end.
+
+(* the exact outcome of uncompressedCollector.Add *)
+Definition uc_add_res (u : ucoll) (d : doc) : ares :=
+  if negb (uc_mcount u =? 0) && negb (Z.of_nat (length d) =? uc_mcount u) then RCount
+  else if uc_batch u <=? Z.of_nat (length (uc_samples u)) then RFull else ROk.
+
+(* streamingDynamicCollector.Add's schema test *)
+Definition sd_changed (c : sdcoll) (d : doc) : bool :=
+  match sd_hash c with
+  | None => true
+  | Some h => negb (sd_mcount c =? snd (schema_sig d)) || negb (bytes_eqb h (fst (schema_sig d)))
+  end.
+
 Section Zlib.
 Variable deflate : bytes -> bytes.
 
@@ -277,17 +300,20 @@ Fixpoint check_news (j : bool) (n : Z) (mhead : list sample) (total : list sampl
    error; SetMetadata: no error), x the input document (Add, SetMetadata), wv
    the whole writer log, rv Resolve's result and info Info().SampleCount, all
    observed after the operation *)
-Definition c17_step (j : bool) (n : Z) (s : ost) (k : opk) (okflag : bool) (x : sample)
+Definition c17_total1 (s : ost) (k : opk) (okflag : bool) (x : sample) : list sample :=
+  match k with
+  | KAdd => if okflag then o_total s ++ [x] else o_total s
+  | KReset => firstn (o_dur s) (o_total s)
+  | _ => o_total s
+  end.
+Definition c17_meta1 (s : ost) (k : opk) (okflag : bool) (x : sample) : option sample :=
+  match k with KSetMeta => if okflag then Some x else o_meta s | _ => o_meta s end.
+
+Definition c17_core (j : bool) (n : Z) (s : ost) (total1 : list sample) (meta' : option sample)
            (wv : list oview) (rv : option oview) (info : Z) : ost * list viol :=
-  let total1 := match k with
-                | KAdd => if okflag then o_total s ++ [x] else o_total s
-                | KReset => firstn (o_dur s) (o_total s)
-                | _ => o_total s
-                end in
-  let nold := length (o_recs s) in
   let v_old := check_olds j (o_recs s) wv in
-  let '(dur', recs', v_new) := check_news j n (mh (o_meta s)) total1 (o_dur s) (o_recs s) (skipn nold wv) in
-  let meta' := match k with KSetMeta => if okflag then Some x else o_meta s | _ => o_meta s end in
+  let '(dur', recs', v_new) :=
+    check_news j n (mh (o_meta s)) total1 (o_dur s) (o_recs s) (skipn (length (o_recs s)) wv) in
   let pending := skipn dur' total1 in
   let v_res := match rv with
                | None => match pending with [] => [] | _ => [XMissing] end
@@ -297,6 +323,10 @@ Definition c17_step (j : bool) (n : Z) (s : ost) (k : opk) (okflag : bool) (x : 
                end in
   let v_info := if info =? Z.of_nat (length pending) then [] else [XInfo] in
   (mkOst total1 dur' recs' meta', v_old ++ v_new ++ v_res ++ v_info).
+
+Definition c17_step (j : bool) (n : Z) (s : ost) (k : opk) (okflag : bool) (x : sample)
+           (wv : list oview) (rv : option oview) (info : Z) : ost * list viol :=
+  c17_core j n s (c17_total1 s k okflag x) (c17_meta1 s k okflag x) wv rv info.
 
 (* ------------------------------------------------------------------ the model's own views *)
 Section Render.
